@@ -17,7 +17,8 @@ DECIDED = ["R15a and/or truth tables (TABLE, exhaustive 9+9 rows)", "R15b distan
            "R15c modifier and logic dispatch (cut-set per arm)", "R15d type-strict ordering comparisons (DOM)",
            "R15e contains/starts_with/ends_with accepted type pairs (TABLE)",
            "R15f the ids condition compares signed ids",
-           "R14a-c traversal sibling rules (shared with C14)"]
+           "R14a-c traversal sibling rules (shared with C14)",
+           "R16e streaming handlers pass the Continue/Stop kind through (shared with C16)"]
 UNDECIDED = ["extent of a traversal on a concrete graph (needs execution)",
              "element-level semantics of contains/starts_with/ends_with payload operations (std library calls)"]
 
@@ -342,4 +343,7 @@ def run(ctx):
     # (a Stop at an edge must prune only what lies beyond that edge): re-evaluate C14's rules under this property
     from rules import C14
     C14.run(ctx)
+    # pruning (`not_beyond` / `beyond`: Stop) must survive the limit/offset handlers (R16e, shared with C16)
+    from rules import C16
+    C16.handler_control_rule(ctx)
     return 0
